@@ -255,7 +255,7 @@ def run(tier):
     funcs = funcs + sorted(USER_FUNCS)
     pool = POOL_QUICK if tier == "quick" else POOL_QUICK + POOL_MORE
     n = len(pool)
-    k_ok, k_fail = (8, 3) if tier == "quick" else (250, 25)
+    k_ok, k_fail = (8, 3) if tier == "quick" else (800, 150)
     pairs = [(i, j) for i in range(n) for j in range(n)]
     out2, ncases2 = probe(funcs, pool, lambda f: pairs, 2500)
     groups = []
@@ -271,13 +271,13 @@ def run(tier):
         base = [t for t in pairs if out2.get((f, t)) == "ok"]
         r = random.Random("%s-%d" % (f, seed))
         r.shuffle(base)
-        ts = [(a, b, c) for (a, b) in base[:3 if tier == "quick" else 20] for c in range(n)]
-        ts += [(r.randrange(n), r.randrange(n), r.randrange(n)) for _ in range(12 if tier == "quick" else 150)]
+        ts = [(a, b, c) for (a, b) in base[:3 if tier == "quick" else 60] for c in range(n)]
+        ts += [(r.randrange(n), r.randrange(n), r.randrange(n)) for _ in range(12 if tier == "quick" else 400)]
         return sorted(set(ts))
     trip = {f: triples(f) for f in funcs}
     out3, ncases3 = probe(funcs, pool, lambda f: trip[f], 2500)
     for f in funcs:
-        for t in select(out3, f, trip[f], pool, 4 if tier == "quick" else 40, 1 if tier == "quick" else 5, rng):
+        for t in select(out3, f, trip[f], pool, 4 if tier == "quick" else 200, 1 if tier == "quick" else 20, rng):
             groups.append((f, t, FORMS3))
     events, info, unjudged, nsteps = run_groups(groups, pool)
     mism, nval = nv.validate_trace("Trace_Apply", events, wd, chunk=(len(events) + 7) // 8 if tier == "quick" else 4000)
